@@ -18,8 +18,9 @@
    Modelled: block quotes, bullet and ordered lists (start number, delimiter, tight/loose,
    "may interrupt a paragraph" restrictions), paragraphs with laziness, ATX and setext
    headings, fenced and indented code, thematic breaks, blank lines, tabs.
-   Not modelled (outside every alphabet used with this module): HTML blocks, link reference
-   definitions, inline structure. *)
+   HTML blocks: start conditions 2, 6, 7 for the tag names of the alphabets.
+   Not modelled (outside every alphabet used with this module): HTML block kinds 1, 3-5, link reference
+   definitions; inline structure is in MdInline. *)
 EXTENDS Naturals, Sequences, TLC
 
 Peek(l, i) == IF i < Len(l) THEN l[i + 1] ELSE ""      \* 0-based offset
@@ -138,6 +139,10 @@ Continue(nd, hasOpenKid, l, c) ==
             IF nd.d.fenced
             THEN IF IsClosingFence(nd, l, f) THEN [res |-> 2, cur |-> c] ELSE ok(SkipFenceOff(l, c, nd.d.foff))
             ELSE IF f.indent >= 4 THEN ok(AdvCols(l, c, 4)) ELSE IF f.blank THEN ok(AdvNNS(f)) ELSE no
+       [] nd.t = "html" ->
+            \* kinds 6 and 7 end at a blank line (which is not part of the block); kind 2 (comment) takes every line until one
+            \* holds "-->" (closed after that line has been added, see Step)
+            IF nd.d.hkind \in {6, 7} /\ f.blank THEN no ELSE ok(c)
        [] OTHER -> no          \* heading, hr never continue
 
 RECURSIVE Match(_, _, _, _)
@@ -171,6 +176,24 @@ IsFence(l, f) ==
   IN ~f.indented /\ ((bt >= 3 /\ ~Has(l, f.nns + bt, "`")) \/ tl >= 3)
 FenceCh(l, f) == Peek(l, f.nns)
 FenceLen(l, f) == Run(l, f.nns, FenceCh(l, f))
+
+(* HTML blocks (spec section 4.6), start conditions 2 (comment), 6 (block-level tag name) and 7 (any complete tag alone on
+   its line; cannot interrupt a paragraph).  Tag names of the alphabets: div, p, table (kind 6); a, b, span (kind 7). *)
+StartsWithAt(l, i, w) == i + Len(w) <= Len(l) /\ SubSeq(l, i + 1, i + Len(w)) = w
+RECURSIVE HasSeqFrom(_, _, _)
+HasSeqFrom(l, i, w) == IF i + Len(w) > Len(l) THEN FALSE ELSE StartsWithAt(l, i, w) \/ HasSeqFrom(l, i + 1, w)
+BlockTags == {<<"d", "i", "v">>, <<"p">>, <<"t", "a", "b", "l", "e">>}
+OtherTags == {<<"a">>, <<"b">>, <<"s", "p", "a", "n">>}
+TagAt(l, i, tags) == \E w \in tags : StartsWithAt(l, i, w)
+TagLen(l, i, tags) == Len(CHOOSE w \in tags : StartsWithAt(l, i, w) /\ \A v \in tags : StartsWithAt(l, i, v) => Len(v) <= Len(w))
+HtmlKind(l, f) ==        \* 0: not an HTML block start
+  LET i == f.nns
+      j == IF StartsWithAt(l, i, <<"<", "/">>) THEN i + 2 ELSE i + 1 IN
+  IF f.indented \/ Peek(l, i) # "<" THEN 0
+  ELSE IF StartsWithAt(l, i, <<"<", "!", "-", "-">>) THEN 2
+  ELSE IF TagAt(l, j, BlockTags) /\ Peek(l, j + TagLen(l, j, BlockTags)) \in {"", " ", "\t", ">", "/"} THEN 6
+  ELSE IF TagAt(l, j, OtherTags) /\ Peek(l, j + TagLen(l, j, OtherTags)) = ">" /\ OnlyWs(l, j + TagLen(l, j, OtherTags) + 1) THEN 7
+  ELSE 0
 
 IsThematic(l, f) ==
   LET ch == Peek(l, f.nns) IN
@@ -239,6 +262,9 @@ Starts(P, l, lno) ==
        LET nd == NewNode("code", [fenced |-> TRUE, fch |-> FenceCh(l, f), flen |-> FenceLen(l, f), foff |-> f.indent], lno, col)
            st2 == AddChild(closed, nd)
        IN [P EXCEPT !.st = st2, !.m = Len(st2), !.closed = TRUE, !.cur = AdvChars(l, AdvNNS(f), FenceLen(l, f)), !.leaf = TRUE]
+  ELSE IF HtmlKind(l, f) # 0 /\ ~(HtmlKind(l, f) = 7 /\ (cont.t = "para" \/ Tip(P.st).t = "para")) THEN
+       LET st2 == AddChild(closed, NewNode("html", [hkind |-> HtmlKind(l, f)], lno, col)) IN
+       [P EXCEPT !.st = st2, !.m = Len(st2), !.closed = TRUE, !.leaf = TRUE]          \* the whole rest of the line is content
   ELSE IF cont.t = "para" /\ IsSetextLine(l, f) THEN
        LET hd == [cont EXCEPT !.t = "heading", !.d = [level |-> IF Peek(l, f.nns) = "=" THEN 1 ELSE 2, setext |-> TRUE]]
            st2 == [closed EXCEPT ![P.m] = hd]
@@ -286,7 +312,8 @@ Step(st0, l, lno) ==
      THEN AddLine(stF, l, P.cur)                       \* lazy continuation
      ELSE LET st2 == CloseTo(stF, P.m)
               c == st2[P.m]
-          IN IF AcceptsLines(c.t) THEN AddLine(st2, l, P.cur)
+          IN IF c.t = "html" /\ c.d.hkind = 2 /\ HasSeqFrom(l, P.cur.off, <<"-", "-", ">">>) THEN PopClose(AddLine(st2, l, P.cur))
+             ELSE IF AcceptsLines(c.t) THEN AddLine(st2, l, P.cur)
              ELSE IF P.cur.off < Len(l) /\ ~f.blank /\ ~P.noline
                   THEN AddLine(AddChild(st2, NewNode("para", <<>>, lno, f.nns + 1)), l, AdvNNS(f))
                   ELSE st2
